@@ -162,6 +162,10 @@ func init() {
 		"(time.Time).Unix": func(fr *frame, a []value) value {
 			return binop(fr.i, token.QUO, types.Typ[types.Int64], timeNS(a[0]), int64(1000000000))
 		},
+		"(time.Time).Nanosecond": func(fr *frame, a []value) value {
+			r := binop(fr.i, token.REM, types.Typ[types.Int64], timeNS(a[0]), int64(1000000000))
+			return conv(fr.i, types.Typ[types.Int], types.Typ[types.Int64], r)
+		},
 		"(time.Time).UTC":   func(fr *frame, a []value) value { return a[0] },
 		"(time.Time).Local": func(fr *frame, a []value) value { return a[0] },
 		"(time.Time).In":    func(fr *frame, a []value) value { return a[0] },
